@@ -1,0 +1,22 @@
+//go:build verif
+
+package dials
+
+import "reflect"
+
+// VerifCompose exposes compose to the verification harness so that config
+// types built at run time with reflect.StructOf (which cannot be used as a
+// type argument of Config) can be stacked. defaults must be a pointer to a
+// struct; every layer is a (possibly pointer to a) pointerified struct value.
+func VerifCompose(defaults interface{}, layers []reflect.Value) (interface{}, error) {
+	svs := make([]sourceValue, len(layers))
+	for i, l := range layers {
+		svs[i] = sourceValue{value: l}
+	}
+	return compose(defaults, svs)
+}
+
+// VerifDeepCopy exposes the deep copier used for defaults and source values.
+func VerifDeepCopy(v reflect.Value) reflect.Value {
+	return deepCopyValue(v)
+}
